@@ -767,3 +767,280 @@ Proof.
   pose proof (Inv_rec_block w now t res b pd HI Hle Hpd) as HI'.
   apply (ctrl_sum_eq w' t own x t' HI' ltac:(lia) Hin).
 Qed.
+
+(* ---------- no excess in any aligned window (sequential histories) ---------- *)
+
+Definition seq_events (ops : list op) : list ev := flat_map (op_events 0) ops.
+
+Lemma run_erun ops : forall w, fst (run w ops) = fst (erun w (seq_events ops)).
+Proof.
+  induction ops as [|o r IH]; intros w; cbn [run seq_events flat_map]; [reflexivity|].
+  fold (seq_events r). destruct o as [t res b|t res b t_in]; cbn [step op_events app erun].
+  - change (estep w (EChk 0 t res b)) with (chk w 0 t res b).
+    destruct (chk w 0 t res b) as [w1 out] eqn:E1.
+    destruct (estep w1 (ERec 0 t)) as [w2 o2] eqn:E2. cbn [fst].
+    destruct (run w2 r) as [w3 xs] eqn:E3. destruct (erun w2 (seq_events r)) as [w4 os] eqn:E4. cbn [fst].
+    pose proof (IH w2) as H. rewrite E3, E4 in H. exact H.
+  - destruct (estep w (EExit t res b t_in)) as [w1 o1] eqn:E1.
+    destruct (run w1 r) as [w3 xs] eqn:E3. destruct (erun w1 (seq_events r)) as [w4 os] eqn:E4. cbn [fst].
+    pose proof (IH w1) as H. rewrite E3, E4 in H. exact H.
+Qed.
+
+Lemma aligned_above bl t a : 0 < bl -> a mod bl = 0 -> t < a -> bstart bl t + bl <= a.
+Proof.
+  intros Hbl Ha Ht. unfold bstart. apply Z.mod_divide in Ha; [|lia]. destruct Ha as [q ->].
+  pose proof (Z.mod_pos_bound t bl Hbl). pose proof (Z.div_mod t bl ltac:(lia)).
+  assert (t / bl < q) by nia. nia.
+Qed.
+
+Definition adm_bounded (now : Z) (adm : list (Z * Z * Z)) : Prop :=
+  Forall (fun a => fst (fst a) <= now /\ 0 <= snd a) adm.
+
+Lemma adm_sum_widen adm res t lo hi lo' hi' :
+  adm_bounded t adm -> lo' <= lo -> t < hi' -> adm_sum adm res lo hi <= adm_sum adm res lo' hi'.
+Proof.
+  intros H Hlo Hhi. induction H as [|[[t1 r1] b1] rest Hx Hr IH]; cbn [adm_sum]; [lia|].
+  cbn [fst snd] in Hx. destruct (r1 =? res); cbn [andb]; [|lia].
+  destruct (Z.leb_spec lo t1), (Z.ltb_spec t1 hi), (Z.leb_spec lo' t1), (Z.ltb_spec t1 hi'); cbn [andb]; lia.
+Qed.
+
+Lemma window_step adm res t b bl I L :
+  0 < bl -> I mod bl = 0 ->
+  adm_bounded t adm ->
+  (forall s, s mod bl = 0 -> adm_sum adm res s (s + I) <= L) ->
+  adm_sum adm res (bstart bl t + bl - I) (bstart bl t + bl) + b <= L ->
+  forall s, s mod bl = 0 -> adm_sum ((t, res, b) :: adm) res s (s + I) <= L.
+Proof.
+  intros Hbl Hdiv Hb Hall Hnew s Hs. rewrite adm_sum_cons_same.
+  destruct ((s <=? t) && (t <? s + I)) eqn:E; [|specialize (Hall s Hs); lia].
+  apply andb_prop in E. destruct E as [E1 E2]. apply Z.leb_le in E1. apply Z.ltb_lt in E2.
+  assert (Ha : (s + I) mod bl = 0).
+  { rewrite Z.add_mod by lia. rewrite Hs, Hdiv. reflexivity. }
+  pose proof (aligned_above bl t (s + I) Hbl Ha E2) as Hab.
+  pose proof (adm_sum_widen adm res t s (s + I) (bstart bl t + bl - I) (bstart bl t + bl) Hb ltac:(lia)) as Hw.
+  assert (t < bstart bl t + bl). { unfold bstart. pose proof (Z.mod_pos_bound t bl Hbl). lia. }
+  specialize (Hw ltac:(lia)). lia.
+Qed.
+
+Definition adm_total (adm : list (Z * Z * Z)) : Z := sumZ (map snd adm).
+Fixpoint ops_total (ops : list op) : Z :=
+  match ops with [] => 0 | Enter _ _ b :: r => b + ops_total r | Exit _ _ _ _ :: r => ops_total r end.
+
+Lemma adm_sum_le_total adm res lo hi : Forall (fun a => 0 <= snd a) adm -> adm_sum adm res lo hi <= adm_total adm.
+Proof.
+  unfold adm_total. induction 1 as [|[[t r] b] rest Hx Hr IH]; cbn [adm_sum map snd sumZ fold_right]; [lia|].
+  cbn [snd] in Hx. fold (sumZ (map snd rest)). destruct ((r =? res) && (lo <=? t) && (t <? hi)); lia.
+Qed.
+
+Definition op_time (o : op) : Z := match o with Enter t _ _ => t | Exit t _ _ _ => t end.
+Fixpoint omono (now : Z) (ops : list op) : Prop :=
+  match ops with [] => True | o :: r => now <= op_time o /\ omono (op_time o) r end.
+Fixpoint olast (now : Z) (ops : list op) : Z :=
+  match ops with [] => now | o :: r => olast (op_time o) r end.
+Definition op_nonneg (o : op) : Prop := match o with Enter _ _ b => 0 <= b | Exit _ _ _ _ => True end.
+
+Lemma alookup_map_keys {A} (f : Z -> A -> A) k (l : list (Z * A)) :
+  alookup k (map (fun p => (fst p, f (fst p) (snd p))) l)
+  = match alookup k l with Some v => Some (f k v) | None => None end.
+Proof.
+  induction l as [|[k' v] r IH]; cbn [map alookup fst snd]; [reflexivity|].
+  destruct (Z.eqb_spec k k'); [subst; reflexivity|exact IH].
+Qed.
+
+Section NoExcess.
+Variables (res bl I : Z) (r : rule).
+Hypothesis Hbl : 0 < bl.
+Hypothesis Hdiv : I mod bl = 0.
+Hypothesis Hown : r_assoc r = false.
+Hypothesis Hthr : thr_ok (r_thr r) = true.
+
+(* the rule r is in force on res and reads windows of length I aligned to buckets of length bl *)
+Definition has_rule (w : world) : Prop :=
+  exists x, In x (ctrls_of w res) /\ c_rule x = r /\ ctrl_bl (w_cfg w) x = bl /\ ctrl_itv x = I.
+
+Definition windows_ok (w : world) : Prop :=
+  forall s, s mod bl = 0 -> adm_sum (w_adm w) res s (s + I) <= thr_limit (r_thr r).
+
+Definition SeqInv (w : world) (now : Z) : Prop :=
+  Inv w now /\ NonNeg w /\ w_pend w = [] /\ adm_bounded now (w_adm w) /\ has_rule w /\ windows_ok w.
+
+Lemma feed_ctrl_attrs c own rs t b x :
+  c_rule (feed_ctrl own rs t b x) = c_rule x /\ ctrl_bl c (feed_ctrl own rs t b x) = ctrl_bl c x /\
+  ctrl_itv (feed_ctrl own rs t b x) = ctrl_itv x.
+Proof.
+  unfold feed_ctrl, ctrl_bl, ctrl_itv. destruct (c_stat x) as [rv v|a v] eqn:E; [rewrite E; auto|].
+  destruct (c_target own x =? rs); cbn [c_rule c_stat]; [|rewrite E]; auto.
+Qed.
+
+Lemma has_rule_feed w w' rs t b :
+  w_cfg w' = w_cfg w -> w_ctrls w' = feed_alone (w_ctrls w) rs t b -> has_rule w -> has_rule w'.
+Proof.
+  intros Hc Hf (x & Hin & H1 & H2 & H3). unfold has_rule, ctrls_of in *. rewrite Hf, Hc.
+  unfold feed_alone. rewrite (alookup_map_keys (fun k l => map (feed_ctrl k rs t b) l)).
+  destruct (alookup res (w_ctrls w)) as [l|]; [|contradiction].
+  exists (feed_ctrl res rs t b x). split; [apply in_map; assumption|].
+  destruct (feed_ctrl_attrs (w_cfg w) res rs t b x) as (A1 & A2 & A3). rewrite A1, A2, A3. auto.
+Qed.
+
+Lemma has_rule_same w w' : w_cfg w' = w_cfg w -> w_ctrls w' = w_ctrls w -> has_rule w -> has_rule w'.
+Proof. intros Hc Hf. unfold has_rule, ctrls_of. rewrite Hf, Hc. auto. Qed.
+
+Lemma adm_bounded_time now t adm : now <= t -> adm_bounded now adm -> adm_bounded t adm.
+Proof. intros Hle H. eapply Forall_impl; [|exact H]. cbn. intros a [H1 H2]. split; lia. Qed.
+
+Lemma SeqInv_step w now o :
+  SeqInv w now -> now <= op_time o < two62' -> op_nonneg o ->
+  adm_total (w_adm w) + ops_total [o] < 2 ^ 53 ->
+  SeqInv (fst (step w o)) (op_time o) /\
+  adm_total (w_adm (fst (step w o))) <= adm_total (w_adm w) + ops_total [o].
+Proof.
+  intros (HI & HN & Hp & Hb & Hr & Hw) Ht Hnn Hsmall.
+  destruct o as [t rs b|t rs b t_in]; cbn [op_time op_nonneg ops_total] in *.
+  - (* Enter *)
+    cbn [step]. destruct (chk w 0 t rs b) as [w1 out] eqn:E1.
+    assert (Hout : out = snd (chk w 0 t rs b)) by (rewrite E1; reflexivity).
+    assert (Hw1 : w1 = fst (chk w 0 t rs b)) by (rewrite E1; reflexivity).
+    pose proof (Inv_chk w now 0 t rs b HI ltac:(lia)) as HI1. rewrite <- Hw1 in HI1.
+    assert (Hpend1 : w_pend w1 = [(0, {| p_res := rs; p_batch := b; p_out := out |})]).
+    { rewrite Hw1, Hout. unfold chk. cbn [fst snd w_pend]. rewrite Hp. reflexivity. }
+    assert (Hadm1 : w_adm w1 = w_adm w) by (rewrite Hw1; reflexivity).
+    assert (Hcfg1 : w_cfg w1 = w_cfg w) by (rewrite Hw1; reflexivity).
+    assert (Hctrls1 : w_ctrls w1 = w_ctrls w) by (rewrite Hw1; reflexivity).
+    assert (Hnodes1 : alookup rs (w_nodes w1) <> None).
+    { destruct HI1 as (_ & _ & _ & _ & _ & Hpd). rewrite Hpend1 in Hpd. inversion Hpd; assumption. }
+    cbn [estep]. rewrite Hpend1. cbn [alookup]. rewrite Z.eqb_refl. cbn [premove p_out p_res p_batch fst].
+    rewrite Z.eqb_refl.
+    assert (Hblock : forall w2, w2 = rec_block w1 t rs b [] ->
+              SeqInv w2 t /\ adm_total (w_adm w2) <= adm_total (w_adm w) + (b + 0)).
+    { intros w2 ->. split; [|cbn [rec_block w_adm]; rewrite Hadm1; lia].
+      split; [eapply Inv_rec_block; [exact HI1|lia|constructor]|].
+      split; [split; cbn [rec_block w_adm w_pend]; [rewrite Hadm1; apply HN|constructor]|].
+      split; [reflexivity|]. cbn [rec_block w_adm].
+      split; [rewrite Hadm1; eapply adm_bounded_time; [|exact Hb]; lia|].
+      split; [apply (has_rule_same w); auto; cbn [rec_block w_cfg w_ctrls]; congruence|].
+      unfold windows_ok. cbn [rec_block w_adm]. rewrite Hadm1. exact Hw. }
+    destruct out as [|i s|] eqn:Eo; [|apply Hblock; reflexivity|].
+    + (* admitted *)
+      assert (Hpass : flow_check (prepared w rs t) (ctrls_of w rs) t b = OPass).
+      { rewrite <- (chk_out w 0). rewrite <- Hout. reflexivity. }
+      split.
+      * split; [eapply Inv_rec_pass; [exact HI1|lia|assumption|constructor]|].
+        split; [split; cbn [rec_pass w_adm w_pend]; [constructor; [cbn; lia|rewrite Hadm1; apply HN]|constructor]|].
+        split; [reflexivity|]. cbn [rec_pass w_adm]. rewrite Hadm1.
+        split; [constructor; [cbn; lia|eapply adm_bounded_time; [|exact Hb]; lia]|].
+        split; [apply (has_rule_feed w _ rs t b); auto; cbn [rec_pass w_cfg w_ctrls]; congruence|].
+        unfold windows_ok. cbn [rec_pass w_adm]. rewrite Hadm1.
+        destruct (Z.eqb_spec rs res) as [Ers|Ers].
+        -- subst rs. destruct Hr as (x & Hin & Hx1 & Hx2 & Hx3).
+           apply flow_check_pass in Hpass. rewrite Forall_forall in Hpass. specialize (Hpass x Hin).
+           pose proof (Inv_prepared w now res t HI ltac:(lia)) as HI'.
+           assert (HN' : NonNeg (prepared w res t)) by exact HN.
+           assert (Htgt : c_target res x = res) by (unfold c_target, rule_target; rewrite Hx1, Hown; reflexivity).
+           assert (Hwin : win_adm (prepared w res t) res x t
+                          = adm_sum (w_adm w) res (bstart bl t + bl - I) (bstart bl t + bl)).
+           { unfold win_adm, win_lo, win_hi, prepared, with_nodes. cbn [w_adm w_cfg]. rewrite Htgt, Hx2, Hx3. reflexivity. }
+           assert (Hsm : win_adm (prepared w res t) res x t + b < 2 ^ 53).
+           { rewrite Hwin. pose proof (adm_sum_le_total (w_adm w) res (bstart bl t + bl - I) (bstart bl t + bl) ltac:(apply HN)). lia. }
+           apply (ctrl_passes_iff (prepared w res t) t res x t b HI' HN' ltac:(lia) Hin ltac:(rewrite Hx1; exact Hthr) Hnn Hsm) in Hpass.
+           rewrite Hwin, Hx1 in Hpass.
+           apply window_step; auto. eapply adm_bounded_time; [|exact Hb]; lia.
+        -- intros s Hs. rewrite adm_sum_cons_other by congruence. apply Hw. assumption.
+      * cbn [rec_pass w_adm]. rewrite Hadm1. unfold adm_total. cbn [map snd sumZ fold_right].
+        fold (sumZ (map snd (w_adm w))). lia.
+    + (* flow_check never returns ONone *)
+      exfalso. assert (Hf : flow_check (prepared w rs t) (ctrls_of w rs) t b = ONone).
+      { rewrite <- (chk_out w 0). rewrite <- Hout. reflexivity. }
+      clear - Hf. induction (ctrls_of w rs) as [|x l IH]; cbn [flow_check] in Hf; [discriminate|].
+      destruct (ctrl_sum (prepared w rs t) x t); [destruct (rule_blocks _ _ _); [discriminate|auto]|auto].
+  - (* Exit *)
+    split; [|cbn [step estep fst with_nodes w_adm]; lia].
+    split; [apply (Inv_exit w now t rs b t_in HI); lia|].
+    cbn [step estep fst]. unfold with_nodes. cbn [w_adm w_pend].
+    split; [exact HN|]. split; [assumption|].
+    split; [eapply adm_bounded_time; [|exact Hb]; lia|].
+    split; [apply (has_rule_same w); auto|exact Hw].
+Qed.
+
+Lemma SeqInv_run ops : forall w now,
+  SeqInv w now -> omono now ops -> olast now ops < two62' -> Forall op_nonneg ops ->
+  adm_total (w_adm w) + ops_total ops < 2 ^ 53 ->
+  SeqInv (fst (run w ops)) (olast now ops).
+Proof.
+  induction ops as [|o rest IH]; intros w now HS Hm Hl Hnn Hsm; cbn [run olast fst]; [assumption|].
+  destruct Hm as [Hm1 Hm2]. inversion Hnn as [|? ? Ho Hrest]; subst.
+  assert (Hge : op_time o <= olast (op_time o) rest).
+  { clear - Hm2. revert Hm2. generalize (op_time o). induction rest as [|o2 r2 IH2]; intros t0 Hm; cbn [olast omono] in *; [lia|].
+    destruct Hm as [H1 H2]. specialize (IH2 _ H2). lia. }
+  assert (Hrest_nn : 0 <= ops_total rest).
+  { clear - Hrest. induction Hrest as [|o2 r2 H2 Hr2 IH2]; cbn [ops_total]; [lia|]. destruct o2; cbn in H2; lia. }
+  assert (Ho1 : ops_total (o :: rest) = ops_total [o] + ops_total rest).
+  { destruct o; cbn [ops_total]; lia. }
+  destruct (SeqInv_step w now o HS ltac:(cbn [olast] in Hl; lia) Ho ltac:(lia)) as (HS1 & Htot).
+  destruct (step w o) as [w1 x] eqn:E1. cbn [fst] in *.
+  destruct (run w1 rest) as [w2 xs] eqn:E2. cbn [fst].
+  pose proof (IH w1 (op_time o) HS1 Hm2 ltac:(cbn [olast] in Hl; exact Hl) Hrest ltac:(lia)) as H.
+  rewrite E2 in H. exact H.
+Qed.
+
+End NoExcess.
+
+(* ---------- the ghost list is the list of admitted requests of the trace ---------- *)
+
+Fixpoint trace_adm (ops : list op) (outs : list obs) (acc : list (Z * Z * Z)) : list (Z * Z * Z) :=
+  match ops, outs with
+  | Enter t res b :: r, o :: os =>
+      trace_adm r os (match o with OBlock _ _ => acc | _ => (t, res, b) :: acc end)
+  | Exit _ _ _ _ :: r, _ :: os => trace_adm r os acc
+  | _, _ => acc
+  end.
+
+Lemma step_adm w o : w_pend w = [] ->
+  w_pend (fst (step w o)) = [] /\
+  w_adm (fst (step w o)) = trace_adm [o] [snd (step w o)] (w_adm w).
+Proof.
+  intros Hp. destruct o as [t res b|t res b t_in]; cbn [step trace_adm].
+  - destruct (chk w 0 t res b) as [w1 out] eqn:E1. cbn [fst snd].
+    assert (Hw1 : w1 = fst (chk w 0 t res b)) by (rewrite E1; reflexivity).
+    assert (Ho : out = snd (chk w 0 t res b)) by (rewrite E1; reflexivity).
+    assert (Hpend1 : w_pend w1 = [(0, {| p_res := res; p_batch := b; p_out := out |})]).
+    { rewrite Hw1, Ho. unfold chk. cbn [fst snd w_pend]. rewrite Hp. reflexivity. }
+    assert (Hadm1 : w_adm w1 = w_adm w) by (rewrite Hw1; reflexivity).
+    cbn [estep]. rewrite Hpend1. cbn [alookup]. rewrite Z.eqb_refl. cbn [premove p_out p_res p_batch fst].
+    rewrite Z.eqb_refl. destruct out; cbn [rec_pass rec_block w_pend w_adm]; rewrite Hadm1; auto.
+  - cbn [estep fst snd with_nodes w_pend w_adm]. auto.
+Qed.
+
+Lemma run_adm ops : forall w, w_pend w = [] ->
+  w_adm (fst (run w ops)) = trace_adm ops (snd (run w ops)) (w_adm w).
+Proof.
+  induction ops as [|o r IH]; intros w Hp; cbn [run]; [reflexivity|].
+  destruct (step_adm w o Hp) as (Hp1 & Ha1).
+  destruct (step w o) as [w1 x] eqn:E1. cbn [fst snd] in *.
+  specialize (IH w1 Hp1). destruct (run w1 r) as [w2 xs] eqn:E2. cbn [fst snd] in *.
+  rewrite IH, Ha1. destruct o; reflexivity.
+Qed.
+
+Lemma load_pend c t0 rules : w_pend (load c t0 rules) = [].
+Proof. unfold load. destruct (load_all c t0 rules []). reflexivity. Qed.
+Lemma load_adm c t0 rules : w_adm (load c t0 rules) = [].
+Proof. unfold load. destruct (load_all c t0 rules []). reflexivity. Qed.
+
+(* ---------- no excess, from a rule load ---------- *)
+
+Theorem no_excess c t0 rules ops res r bl I :
+  cfg_ok c -> 0 < t0 -> rules_ok rules ->
+  omono t0 ops -> olast t0 ops < two62' -> Forall op_nonneg ops -> ops_total ops < 2 ^ 53 ->
+  0 < bl -> I mod bl = 0 -> r_assoc r = false -> thr_ok (r_thr r) = true ->
+  has_rule res bl I r (load c t0 rules) ->
+  forall s, s mod bl = 0 ->
+  adm_sum (w_adm (fst (run (load c t0 rules) ops))) res s (s + I) <= thr_limit (r_thr r).
+Proof.
+  intros Hc Ht0 Hr Hm Hl Hnn Hsm Hbl Hdiv Hown Hthr Hhas.
+  assert (HS : SeqInv res bl I r (load c t0 rules) t0).
+  { split; [apply Inv_load; assumption|]. split; [apply NonNeg_load|]. split; [apply load_pend|].
+    split; [rewrite load_adm; constructor|]. split; [assumption|].
+    unfold windows_ok. rewrite load_adm. intros s _. cbn [adm_sum]. apply thr_limit_nonneg. assumption. }
+  pose proof (SeqInv_run res bl I r Hbl Hdiv Hown Hthr ops (load c t0 rules) t0 HS Hm Hl Hnn
+                ltac:(rewrite load_adm; cbn; lia)) as H.
+  destruct H as (_ & _ & _ & _ & _ & Hw). exact Hw.
+Qed.
